@@ -10,7 +10,7 @@ from vf.props import common
 
 ID = "C10"
 LEVEL = "exploration"
-TECHNIQUE = "Hypothesis differential between the repository's own implementations: paired creators (CLI assembler vs class-based) and the three v2-capable hashers on the same generated payload ; interactive front end driven through its prompts; symlinked sibling directories; optional second act"
+TECHNIQUE = "Hypothesis differential between the repository's own implementations: paired creators (CLI assembler vs class-based) and the three v2-capable hashers on the same generated payload ; interactive front end driven through its prompts; symlinked sibling directories; optional second act and warm-up"
 RULE = ("Cases: generated tree x piece length x options (private/source/comment); pairs (TorrentAssembler v2, TorrentFileV2) and "
         "(TorrentAssembler hybrid, TorrentFileHybrid), and the interactive front end (InteractiveCreator with its prompts answered by "
         "the harness) against the CLI creator, must yield equal info dictionaries and piece layers (decoded values); per "
@@ -47,7 +47,7 @@ def strategy(tier):
                 d = draw(st.sampled_from(dirs))
                 t["dirlinks"] = [{"path": [draw(st.sampled_from(["current", "zz-link", "0link"]))], "target": d}]
         return {"tree": t, "P": P, "opts": opts, "assembler_route": draw(st.sampled_from(["lib", "cli"])),
-                "again": draw(common.second_act())}
+                "again": draw(common.second_act()), "warm": draw(common.warmup())}
     return case()
 
 
@@ -159,6 +159,8 @@ def run_case(case):
     classes = set()
     with sandbox.Scratch("c10") as scr:
         root = common.make(scr, tree)
+        if common.apply_warmup(scr, case.get("warm")):
+            classes.add("after-warm-up")
         for tag in ("", "again-"):
             bad = _round(scr, root, tree, P, case, classes, tag)
             if bad is not None:
